@@ -6,8 +6,17 @@ per-format quantisation step bounds used by the oracle.
 NOT modelled (float code): endpoint search (line fit, least squares, refinement, quantisation choice),
 palette construction and closest-entry search in f32/Oklab, BC7 mode / partition / p-bit search, dithering.
 What is modelled is everything the property's portability clauses rest on, plus the encoders' fully
-discrete single-colour paths (BC7 all colours; BC4-type UNORM 8-bit values; 5:6:5 corner colours),
-which are compared byte for byte with `dds::encode` in the tie.
+discrete paths, which are compared with `dds::encode` in the tie on every run (`predictBlock`: bytes; `bc7Rule`:
+constraints on the header fields of the emitted BC7 block):
+  * single colours (BC7 all colours; BC4-type UNORM 8-bit values; 5:6:5 corner colours; BC1 transparent block);
+  * BC2 explicit alpha of EVERY block (`bc2AlphaBlock`), border replication of partial blocks (`blockSrc`);
+  * BC4-type UNORM / SNORM blocks of a constant channel (`bc4uSingle`, `bc4sSingle8`: the `closest` branch);
+  * BC7 control flow: modes tried (`bc7ModesTried`), forced p-bits of opaque subsets (`possiblePBits`,
+    `pickBestStates`, `subsetPBits`), rotations (`bc7RotationForced`, `bc7RotationsAllowed`), the constant separated
+    channel of modes 4 / 5 (`singleAlpha`, `sepEndpoints`).
+The f32 expressions that occur on these paths for 8-bit inputs (`n4::from_f32`, `closest_s8_norm` and the
+`BC4_EPSILON` guard, `channel_round/floor/ceil`) are transcribed over the software binary32 of `F32.lean`; the closed
+forms used beside them are proved equal on the whole 8-bit domain in `Proofs/Enc13F32.lean`, `Proofs/Enc13Sep.lean`.
 -/
 import DdsModel.Bc
 import DdsModel.BcSpec
